@@ -40,12 +40,13 @@ ASSUMPTIONS = [
     "when every positive-weight realization fails but the success count still meets the threshold (zero-weight survivors) only 'returns normally with a documented code' is asserted",
     "rank ties inside a filter make the model's deficiency verdict ambiguous: such runs only assert 'returns normally'",
     "real SciPy algorithms are deterministic: the faulted run follows the baseline until the fault",
+    "max_functions budgets the function values handed to the algorithm (real back-ends: recorded at the optimizer callback); the unperturbed evaluation that accompanies a gradient-only request at a point without cached function values also yields a FunctionResults but is not budgeted",
 ]
 COMPONENTS = {
     "real": ["EnsembleOptimizer (stopping criteria, exit codes)", "optimizer / evaluator steps", "EnsembleEvaluator", "filters", "estimators", "ConstraintInfo", "SciPy plug-in + real scipy.optimize (40% of groups)"],
     "stub": ["SimEvaluator with fault plan", "sim/scripted optimizer (60% of groups)", "objective/constraint scalers"],
 }
-PROBES = ["too_few_expected", "too_few_by_filter", "too_few_by_estimator", "too_few_by_threshold", "max_functions_expected",
+PROBES = ["all_failed_tolerated_run_continues", "too_few_expected", "too_few_by_filter", "too_few_by_estimator", "too_few_by_threshold", "max_functions_expected",
           "user_abort_expected", "evaluator_exception_expected", "finished_expected", "real_scipy_backend", "parallel_de",
           "evaluator_step", "nested", "dontcare_zero_weight_survivors", "failing_results_delivered", "rms_zero_all_failed"]
 REAL = ["slsqp", "l-bfgs-b", "cobyla", "nelder-mead", "differential_evolution"]
@@ -68,7 +69,8 @@ def _group_scenario(gseed: int) -> dict:
     )
     cfg = scn["configs"][0]
     if backend != "scripted":
-        opt = {"method": backend, "tolerance": 1e-3}
+        opt = {"method": f"simwrap/{backend}", "tolerance": 1e-3}  # the real plug-in behind a recording callback
+        scn["simwrap"] = True
         if backend == "differential_evolution":
             opt["options"] = {"maxiter": rng.randint(1, 2), "popsize": rng.randint(2, 3), "seed": rng.randint(1, 999), "tol": 0.5}
             if rng.random() < 0.5:
@@ -100,6 +102,15 @@ def _group_scenario(gseed: int) -> dict:
         scn["plan"]["steps"] = [{"kind": "optimizer", "cfg": 0,
                                  "nested": {"steps": [{"kind": "optimizer", "cfg": 1}], "recorders": ["a"],
                                             "trackers": [{"what": "best", "tol": None, "sources": [0]}]}}]
+    # stratum: threshold 0 with a NaN-tolerant back-end - an evaluation in which every realization fails is
+    # then *not* a deficiency and the run must go on
+    scn["nan_tolerant_stratum"] = False
+    if not nested and step == "optimizer" and rng.random() < 0.2:
+        if backend == "scripted":
+            cfg["optimizer"]["options"]["allow_nan"] = True
+        if backend in ("scripted", "differential_evolution"):
+            cfg["realizations"]["realization_min_success"] = 0
+            scn["nan_tolerant_stratum"] = True
     scn["backend"] = backend
     scn["nested"] = nested
     scn["fault_rng"] = rng.getrandbits(32)
@@ -165,6 +176,10 @@ def _deficiency(ctx, ln, allow_nan, optimizer_step=True):
                 return True, "filter", dontcare
             return False, None, True
         fweights[fi] = w
+    if ln.is_function and f_failed.all():
+        # nothing survived and the threshold (zero) tolerates that: every function is reported as NaN,
+        # no estimator runs, and that is not a deficiency
+        return False, None, dontcare
     for kind, n in (("o", c["no"]), ("c", c["nc"])):
         for j in range(n):
             fi = model.filter_of(cfg, kind, j)
@@ -178,6 +193,17 @@ def _deficiency(ctx, ln, allow_nan, optimizer_step=True):
             if model.estimator_of(cfg, kind, j) == "stddev" and np.count_nonzero(w) < 2:
                 return True, "estimator", dontcare
     return False, None, dontcare
+
+
+def _counted(callback_log):
+    """Budgeted function evaluations of a real back-end: the vectors whose function values were handed to the
+    algorithm (completed requests with return_functions).  Returns (total, [count before each request])."""
+    total, before = 0, []
+    for r in callback_log:
+        before.append(total)
+        if r["rf"] and "functions" in r:
+            total += int(np.asarray(r["x"]).shape[0]) if np.ndim(r["x"]) > 1 else 1
+    return total, before
 
 
 def check_run(ctx, scn, fault, viol, probes, baseline=None) -> tuple[int, str]:
@@ -221,6 +247,8 @@ def check_run(ctx, scn, fault, viol, probes, baseline=None) -> tuple[int, str]:
         # request at an uncached point also yields a FunctionResults, which is not a budgeted evaluation)
         nfun = sum((len(b["x"]) if np.ndim(b["x"]) > 1 else 1) for b in ctx.backend_log
                    if b.get("ev") == "request" and b.get("rf") and b.get("done"))
+    elif backend != "scripted" and getattr(ctx, "fake", None) is not None:
+        nfun = _counted(ctx.fake.callback_log)[0]
     raised = next((c.k for c in ctx.evaluator.calls if c.raised == "raise"), None)
     aborted = next((c.k for c in ctx.evaluator.calls if c.raised == "abort"), None)
     finished = int(OptimizerExitCode.EVALUATION_STEP_FINISHED if step_kind == "evaluator" else OptimizerExitCode.OPTIMIZER_STEP_FINISHED)
@@ -298,7 +326,8 @@ def check_run(ctx, scn, fault, viol, probes, baseline=None) -> tuple[int, str]:
                 if e["op"] in ("f", "fg"):
                     done += len(e["pts"]) if e.get("batch") else 1
         elif baseline is not None:
-            want_more = baseline["after"].get(mf, baseline["nfun"] > mf)
+            # exact for a deterministic algorithm: the baseline made a request when mf budgeted evaluations were done
+            want_more = any(c >= mf for c in baseline["before"])
         if want_more is True:
             probe("max_functions_expected")
             if code != int(OptimizerExitCode.MAX_FUNCTIONS_REACHED):
@@ -312,6 +341,9 @@ def check_run(ctx, scn, fault, viol, probes, baseline=None) -> tuple[int, str]:
     elif code == int(OptimizerExitCode.MAX_FUNCTIONS_REACHED) and not scn.get("nested"):
         viol.append({"clause": "max-functions-code-without-budget-stop", "sig": {}, "detail": "no max_functions configured"})
     probe("finished_expected")
+    if allow_nan and model.realization_min_success(cfg0) == 0 and any(
+            c.obj is not None and np.all(np.isnan(c.obj)) for c in ctx.evaluator.calls):
+        probe("all_failed_tolerated_run_continues")
     if code not in (finished, int(OptimizerExitCode.MAX_FUNCTIONS_REACHED)):
         viol.append({"clause": "wrong-exit-code", "sig": {"expected": finished, "got": code, "step": step_kind}, "detail": f"backend {backend}, fault {fault}"})
     return 1, "FINISHED"
@@ -333,20 +365,12 @@ def execute(scn: dict) -> dict:
         probe("evaluator_step")
     base = harness.run_scenario(copy.deepcopy(scn))
     L = len(base.evaluator.calls)
-    base_info = {"nfun": 0, "after": {}}
-    # after[m] = the baseline made a further evaluation after its m-th completed function evaluation
-    seq = [ln for ln in oracles.linked_results(base) if base.step_meta[ln.step]["level"] == 0]
-    events_seen = []
-    for ln in seq:
-        isf = ln.is_function and ln.opt.functions is not None
-        if ln.rec.n not in events_seen:
-            events_seen.append(ln.rec.n)
-            for m in list(base_info["after"]):
-                if base_info["after"][m] is False and m <= base_info["nfun"]:
-                    base_info["after"][m] = True
-        if isf:
-            base_info["nfun"] += 1
-            base_info["after"].setdefault(base_info["nfun"], False)
+    base_info = {"nfun": 0, "before": []}
+    if backend != "scripted" and getattr(base, "fake", None) is not None:
+        base_info["nfun"], base_info["before"] = _counted(base.fake.callback_log)
+    else:
+        base_info["nfun"] = sum(1 for ln in oracles.linked_results(base)
+                                if base.step_meta[ln.step]["level"] == 0 and ln.is_function and ln.opt.functions is not None)
     member = scn.get("member", 0)
     fault = scn.get("fault")
     ctx = base
@@ -359,7 +383,10 @@ def execute(scn: dict) -> dict:
         cfg = scn["configs"][0]
         nr = len(scn["world"]["real_ids"])
         npert = cfg["gradient"]["number_of_perturbations"]
-        if kind == "nan":
+        if kind == "nan" and scn.get("nan_tolerant_stratum"):
+            # every realization (and perturbation) of one evaluation fails
+            fault = {"kind": "nan", "faults": [{"kind": "nan", "eval": k, "real": None, "pert": None, "col": None}], "at": k}
+        elif kind == "nan":
             fl = []
             for _ in range(frng.randint(1, 3)):
                 f = {"kind": "nan", "eval": (k if frng.random() < 0.7 else None), "real": (frng.randrange(nr) if frng.random() < 0.8 else None),
